@@ -18,15 +18,21 @@
 (*       M* / Exec* / Loop                                                 *)
 (*                 the meaning of the IR, with While { loop_variables      *)
 (*                 (name, initial_value, loop_value), statements,          *)
-(*                 break_collector }.                                      *)
+(*                 break_collector };                                      *)
+(*       LowerLoops / BackEnd                                              *)
+(*                 the lowering of While for the back ends (loop values    *)
+(*                 that read an earlier loop variable are saved, then the  *)
+(*                 loop variables are assigned one after another).         *)
 (*                                                                         *)
 (* Two switches reproduce defects as must-fail configurations:             *)
 (*   SequentialLoopVars   TRUE: the loop values are assigned one after     *)
 (*        another (what both back ends print: `a = b; b = a;`) WITHOUT the *)
 (*        save of a value that reads an earlier loop variable (the tree    *)
 (*        before commit 8593e50); FALSE: parallel assignment, which is the *)
-(*        meaning the rewrite relies on and what lir_lowering.rs now       *)
-(*        guarantees by copying such values into temporaries.              *)
+(*        meaning the rewrite relies on.  What lir_lowering.rs does since  *)
+(*        that commit (copy such values into temporaries, then assign one  *)
+(*        after another) is transcribed as LowerLoops / BackEnd and must   *)
+(*        agree with the parallel meaning.                                 *)
 (*   DiscardedCallIsTail  TRUE: a self call at the end of a block whose    *)
 (*        value nobody expects (expected_return_collector = None) counts   *)
 (*        as a tail call whatever it collects; FALSE: the guard of the     *)
@@ -245,8 +251,44 @@ RewriteFun(F) ==
                    ret |-> F.ret, n |-> r.n],
            recognised |-> TRUE]
 
-Lowered(prog)   == [f |-> LowerFun("f", prog.f), g |-> LowerFun("g", prog.g)]
-Rewritten(prog) == [f |-> RewriteFun(LowerFun("f", prog.f)).fn, g |-> RewriteFun(LowerFun("g", prog.g)).fn]
+(* What the back ends are given (lir_lowering.rs, the `mir::Statement::While` arm since commit 8593e50): both
+   back ends assign the loop variables one after another, so a loop value that is an earlier loop variable is
+   first copied into a temporary at the end of the loop body.  SaveLoopValues transcribes that loop over
+   `loop_variables[1..]`; acc = [lv, extra: the copies pushed onto the body, n]. *)
+RECURSIVE SaveLoopValues(_, _), SaveStmts(_, _, _)
+SaveLoopValues(i, acc) ==
+  IF i > Len(acc.lv) THEN acc
+  ELSE LET e == acc.lv[i].loop IN
+       IF e.v # "c" /\ \E j \in 1..(i - 1) : acc.lv[j].d = e
+       THEN SaveLoopValues(i + 1, [lv |-> [acc.lv EXCEPT ![i].loop = T(acc.n)],
+                                   extra |-> Append(acc.extra, SCopy(T(acc.n), e)), n |-> acc.n + 1])
+       ELSE SaveLoopValues(i + 1, acc)
+\* lower_stmt_block over a statement list; acc = [s, n]
+SaveStmts(ss, i, acc) ==
+  IF i > Len(ss) THEN acc
+  ELSE LET x == ss[i] IN
+       CASE x.kind = "if" ->
+              LET a == SaveStmts(x.s1, 1, [s |-> <<>>, n |-> acc.n])
+                  b == SaveStmts(x.s2, 1, [s |-> <<>>, n |-> a.n])
+              IN SaveStmts(ss, i + 1, [s |-> Append(acc.s, SIf(x.c, a.s, b.s, x.fa)), n |-> b.n])
+         [] x.kind = "sif" ->
+              LET a == SaveStmts(x.s, 1, [s |-> <<>>, n |-> acc.n])
+              IN SaveStmts(ss, i + 1, [s |-> Append(acc.s, SSif(x.c, x.inv, a.s)), n |-> a.n])
+         [] x.kind = "while" ->
+              LET a == SaveStmts(x.s, 1, [s |-> <<>>, n |-> acc.n])
+                  v == SaveLoopValues(2, [lv |-> x.lv, extra |-> <<>>, n |-> a.n])
+              IN SaveStmts(ss, i + 1, [s |-> Append(acc.s, SWhile(v.lv, a.s \o v.extra, x.bc)), n |-> v.n])
+         [] OTHER -> SaveStmts(ss, i + 1, [s |-> Append(acc.s, x), n |-> acc.n])
+LowerLoops(F) == LET r == SaveStmts(F.body, 1, [s |-> <<>>, n |-> F.n]) IN [F EXCEPT !.body = r.s, !.n = r.n]
+
+(* Programs in IR: the functions and how their loops assign the loop variables (seq) *)
+Lowered(prog)   == [f |-> LowerFun("f", prog.f), g |-> LowerFun("g", prog.g), seq |-> FALSE]
+\* after the rewrite, with the meaning of While selected by the constant
+Rewritten(prog) == [f |-> RewriteFun(LowerFun("f", prog.f)).fn, g |-> RewriteFun(LowerFun("g", prog.g)).fn,
+                    seq |-> SequentialLoopVars]
+\* as executed by the back ends: loop values saved, then assigned one after another
+BackEnd(prog)   == [f |-> LowerLoops(RewriteFun(LowerFun("f", prog.f)).fn), g |-> LowerLoops(RewriteFun(LowerFun("g", prog.g)).fn),
+                    seq |-> TRUE]
 Recognised(fn, fun) == RewriteFun(LowerFun(fn, fun)).recognised
 
 -----------------------------------------------------------------------------
@@ -267,7 +309,7 @@ SeqLoopVars(lv, i, env) == IF i > Len(lv) THEN env ELSE SeqLoopVars(lv, i + 1, S
 \* the meaning of While: every loop value is read before any loop variable changes
 ParLoopVars(lv, env) ==
   AssignAll([i \in 1..Len(lv) |-> lv[i].d], [i \in 1..Len(lv) |-> MVal(lv[i].loop, env)], 1, env)
-NextLoopVars(lv, env) == IF SequentialLoopVars THEN SeqLoopVars(lv, 1, env) ELSE ParLoopVars(lv, env)
+NextLoopVars(lv, env, seq) == IF seq THEN SeqLoopVars(lv, 1, env) ELSE ParLoopVars(lv, env)
 
 RECURSIVE MCall(_, _, _, _, _), ExecSeq(_, _, _, _), ExecStmt(_, _, _), Loop(_, _, _)
 ExecSeq(pm, ss, i, st) == IF st.k # "run" \/ i > Len(ss) THEN st ELSE ExecSeq(pm, ss, i + 1, ExecStmt(pm, ss[i], st))
@@ -295,7 +337,7 @@ Loop(pm, w, st) ==
   CASE st1.k = "div" -> st1
     [] st1.k = "brk" -> [st1 EXCEPT !.k = "run", !.env = IF w.bc = None THEN st1.env ELSE Set(st1.env, w.bc, st1.bv)]
     [] OTHER -> IF st1.phi = 0 THEN [st1 EXCEPT !.k = "div"]      \* the next iteration is the next nested call
-                ELSE Loop(pm, w, [st1 EXCEPT !.env = NextLoopVars(w.lv, st1.env), !.phi = st1.phi - 1])
+                ELSE Loop(pm, w, [st1 EXCEPT !.env = NextLoopVars(w.lv, st1.env, pm.seq), !.phi = st1.phi - 1])
 MCall(pm, fn, vals, fuel, out) ==
   IF fuel = 0 THEN Div
   ELSE LET F == pm[fn]
